@@ -164,3 +164,187 @@ def run_part(ctx):
         ctx.add_violations(r["viols"])
     ctx.sample({"sqlite_op": ops[0], "inject": "pwrite64:signal=KILL:when=1", "syscalls_in_fault_free_run": summary[ops[0]]})
     return {"evaluations": len(items), "distinct": len(items), "summary": {"ops": ops, "syscalls": summary, "cases": len(items)}}
+
+
+# ---------------------------------------------------------------------- statement-level faults
+#
+# The syscall tier sees failures of the calls libsqlite3 makes - with a rollback journal / WAL these all
+# happen while a transaction COMMITS.  A statement that fails in the MIDDLE of a multi-statement operation
+# (disk full on a spill, a locked table, a constraint) is a different crash point: the Python code
+# around the connection decides whether the statements before it are committed or rolled back.  Here
+# the module's `sqlite3` is rebound (in its own namespace, in a forked child) to a look-alike whose
+# cursors count execute() calls; the k-th call raises sqlite3.OperationalError("disk I/O error"), for
+# every k of the fault-free run of each operation.
+
+
+class _CursorProxy:
+    def __init__(self, real, ctl):
+        self._real, self._ctl = real, ctl
+
+    def execute(self, sql, *a):
+        ctl = self._ctl
+        ctl["n"] += 1
+        ctl["log"].append(" ".join(str(sql).split())[:60])
+        if ctl["n"] == ctl["fail_at"]:
+            ctl["fired"] = True
+            raise sqlite3.OperationalError("disk I/O error")
+        r = self._real.execute(sql, *a)
+        return self if r is self._real else r
+
+    def __iter__(self):
+        return iter(self._real)
+
+    def __getattr__(self, n):
+        return getattr(self._real, n)
+
+
+class _ConnProxy:
+    def __init__(self, real, ctl):
+        self._real, self._ctl = real, ctl
+
+    def cursor(self, *a, **k):
+        return _CursorProxy(self._real.cursor(*a, **k), self._ctl)
+
+    def execute(self, sql, *a):
+        return _CursorProxy(self._real.cursor(), self._ctl).execute(sql, *a)
+
+    def __enter__(self):
+        self._real.__enter__()
+        return self
+
+    def __exit__(self, *exc):
+        return self._real.__exit__(*exc)
+
+    def __getattr__(self, n):
+        return getattr(self._real, n)
+
+
+STMT_OPS = ["delete", "erasedups", "gc", "append"]
+
+
+def _stmt_child(op, fail_at, db, wfd):
+    import json
+
+    import xonsh.history.sqlite as S
+
+    from .pysched import ShimModule
+
+    ctl = {"n": 0, "fail_at": fail_at, "log": [], "fired": False}
+    S.sqlite3 = ShimModule(sqlite3, connect=lambda *a, **k: _ConnProxy(sqlite3.connect(*a, **k), ctl))
+    if hasattr(S, "XH_SQLITE_CACHE"):
+        try:
+            setattr(S.XH_SQLITE_CACHE, S.XH_SQLITE_CREATED_SQL_TBL, False)
+        except Exception:  # noqa: BLE001
+            pass
+    exc = None
+    try:
+        h = S.SqliteHistory(gc=False, filename=db, sessionid="sess", save_cwd=False)
+        ctl["n"] = 0  # count the operation's statements only
+        ctl["log"].clear()
+        if op == "append":
+            h.append({"inp": "new1 é", "rtn": 0, "ts": [2000.0, 2000.5]})
+        elif op == "delete":
+            h.delete("^(dup|old0)")
+        elif op == "erasedups":
+            h.erasedups()
+        elif op == "gc":
+            S.xh_sqlite_delete_items(2, filename=db)
+    except BaseException as e:  # noqa: BLE001
+        exc = f"{type(e).__name__}: {e}"[:120]
+    os.write(wfd, json.dumps({"n": ctl["n"], "log": ctl["log"], "fired": ctl["fired"], "exc": exc}).encode())
+
+
+def _stmt_run(op, fail_at):
+    import json
+
+    _setup()
+    from . import c13
+
+    c13._setup()  # a loaded session ($XONSH_DATA_DIR etc.)
+    d = common.scratch_dir("sqs")
+    db = os.path.join(d, "hist.sqlite")
+    shutil.copy(os.path.join(_ROOT, "tpl", "hist.sqlite"), db)
+    r, w = os.pipe()
+    pid = os.fork()
+    if pid == 0:
+        code = 0
+        try:
+            os.close(r)
+            devnull = os.open(os.devnull, os.O_WRONLY)
+            os.dup2(devnull, 1)
+            os.dup2(devnull, 2)
+            _stmt_child(op, fail_at, db, w)
+        except BaseException:  # noqa: BLE001
+            code = 3
+        finally:
+            os._exit(code)
+    os.close(w)
+    data = b""
+    while True:
+        b = os.read(r, 65536)
+        if not b:
+            break
+        data += b
+    os.close(r)
+    os.waitpid(pid, 0)
+    info = _rows(db)
+    shutil.rmtree(d, ignore_errors=True)
+    return (json.loads(data) if data else None), info
+
+
+_STMT_BASE = {}
+
+
+def _stmt_case(item):
+    op, k = item
+    pre, post = _STMT_BASE[op]
+    res, (ok, rows) = _stmt_run(op, k)
+    viols = []
+    if res is None or not res["fired"]:
+        return {"viols": [], "fired": False}
+    if not ok or (rows != pre and rows != post):
+        kind = "integrity" if not ok else ("half-applied" if isinstance(rows, list) else "unreadable")
+        viols.append(
+            {
+                "key": f"sqlite:{op}:statement-fails:{kind}",
+                "clause": "database is its complete previous or complete new version",
+                "case": {"tier": "sqlite-statement", "op": op, "failing_statement": k, "statement": res["log"][k - 1] if k - 1 < len(res["log"]) else None},
+                "observed": rows,
+                "expected": {"previous": pre, "new": post},
+                "note": f"the operation ended with {res['exc']}",
+            }
+        )
+    return {"viols": viols, "fired": True}
+
+
+def run_stmt_part(ctx):
+    _setup()
+    items = []
+    summary = {}
+    _, pre = _rows(os.path.join(_ROOT, "tpl", "hist.sqlite"))
+    for op in STMT_OPS:
+        res, (ok, post) = _stmt_run(op, None)
+        if res is None or res["exc"] or not ok:
+            raise common.ToolError(f"fault-free sqlite {op} (statement tier) failed: {res}")
+        if post == pre:
+            raise common.ToolError(f"sqlite {op} changed nothing - vacuous")
+        _STMT_BASE[op] = (pre, post)
+        summary[op] = res["n"]
+        items += [(op, k) for k in range(1, res["n"] + 1)]
+    res = common.pmap(_stmt_case, items, ctx.jobs, chunk=2, init=_setup, seed=ctx.seed)
+    for r in res:
+        ctx.add_violations(r["viols"])
+    ctx.log(f"sqlite statement tier: {len(items)} failing-statement cases; statements per op: {summary}; fired: {sum(1 for r in res if r['fired'])}")
+    return {"evaluations": len(items), "summary": {"statements_per_op": summary, "cases": len(items)}}
+
+
+def replay_stmt(rec):
+    c = rec["case"]
+    _setup()
+    _, pre = _rows(os.path.join(_ROOT, "tpl", "hist.sqlite"))
+    _, (ok, post) = _stmt_run(c["op"], None)
+    _STMT_BASE[c["op"]] = (pre, post)
+    r = _stmt_case((c["op"], c["failing_statement"]))
+    for v in r["viols"]:
+        print("VIOLATION", v["key"], v["observed"])
+    return 1 if r["viols"] else 0
